@@ -286,11 +286,11 @@ theorem validated_state_reachable {ga : Nat → Int} (v : V ga) :
 
 -- a concrete trace fragment (the events of harness/C20/h.c for one GAI_WAIT batch of two items
 -- with a SIGEV_THREAD callback) is accepted, and a notification before the last result is not
-example : accepts gaEx [.begin 1 100 2 .wait .thread [0, 2], .gacall (.s 1) 100 0 0, .garet (.s 1) 100 0 0,
-    .gacall (.s 1) 100 1 2, .garet (.s 1) 100 1 (-2), .notify (.s 1) 100 ['D', 'D'],
+example : accepts gaEx [.begin 1 100 2 .wait .thread [0, 2], .gacall (.s 1) 100 0 0 1, .garet (.s 1) 100 0 0,
+    .gacall (.s 1) 100 1 2 1, .garet (.s 1) 100 1 (-2), .notify (.s 1) 100 ['D', 'D'],
     .ret 1 100 0 ['D', 'D'], .final 1 100 0 0 1, .final 1 100 1 (-2) 1, .fin true] = true := by
   decide +kernel
-example : accepts gaEx [.begin 1 100 2 .wait .thread [0, 2], .gacall (.s 1) 100 0 0, .garet (.s 1) 100 0 0,
+example : accepts gaEx [.begin 1 100 2 .wait .thread [0, 2], .gacall (.s 1) 100 0 0 1, .garet (.s 1) 100 0 0,
     .notify (.s 1) 100 ['D', 'N']] = false := by
   decide +kernel
 
